@@ -147,6 +147,24 @@ func (h *NtfnsHandler) Start() error {
 		}
 	}
 
+	// While the wallet was down the node may have reorganised to a branch that
+	// is not higher than the wallet's tip: the loop above has nothing to do then
+	// and the wallet would keep the stale branch until the next block arrives.
+	if sha, err := h.walletMgr.chainFetcher.FetchBlockShaByHeight(indexHeight); err == nil && sha != nil &&
+		(h.bestBlock.Height != indexHeight || h.bestBlock.Hash != *sha) {
+		blk, err := h.walletMgr.chainFetcher.FetchBlockBySha(sha)
+		if err != nil {
+			return err
+		}
+		if blk != nil {
+			if err = h.processConnectedBlock(blk); err != nil {
+				logging.CPrint(logging.ERROR, "NtfnsHandler.Start(): failed to switch to the node's best chain",
+					logging.LogFormat{"height": indexHeight, "err": err})
+				return err
+			}
+		}
+	}
+
 	// the task queue must exist before Start returns: API requests (import,
 	// remove) use it as soon as the wallet is started
 	if err = h.initTaskChan(); err != nil {
